@@ -1,6 +1,6 @@
 """C01 - map content and feature-info queries land at the right place on the ground.
 
-spec/GeoRef.tla (on spec/Lattice.tla) states C01 for requests that need no non-affine reprojection: every output
+spec/GeoRef.tla (on spec/Lattice.tla) states C01 - in full for requests that need no non-affine reprojection: every output
 pixel shows the upstream content of its own ground location to within 1.5 output pixels, at a level that
 closest_level admits, nothing outside the layer extent, nothing blank inside it, a one-tile request is
 returned unresampled, blank responses exactly when the code's NoTiles conditions hold, and a forwarded
@@ -9,6 +9,11 @@ MapProxyApps on lattice grids (engine/lattice.LatticeApp) with a position-encodi
 1.3.0 GetMap and GetFeatureInfo (EPSG:3857, alias EPSG:900913, EPSG:4326 with lat/long axis order) and WMTS
 GetFeatureInfo requests on and next to tile edges; the decoded provenance of every output pixel and every
 upstream request are validated by TLC (spec/trace/Trace_GeoRef.tla).
+
+Requests in another reference system than the grid (EPSG:4326 on an EPSG:3857 grid and the reverse, mesh
+reprojection): GeoRef.ReprojPixelOK states the one-and-a-half-pixel clause with the place of every output pixel on
+the grid handed in by the harness (closed formulas of the spherical Mercator projection, not MapProxy's or pyproj's);
+sequences of neighbouring requests answered by one process are validated by spec/trace/Trace_GeoReproj.tla.
 """
 import json
 import os
@@ -237,6 +242,142 @@ def validate(ctx, name, doc):
     return r, pr[-1][1]
 
 
+# ---------------------------------------------------------------------------------------------------------
+# requests in another reference system than the grid (mesh reprojection)
+# ---------------------------------------------------------------------------------------------------------
+import math
+
+R_EARTH = 6378137.0
+
+
+def merc_to_deg(x, y):
+    """EPSG:3857 -> EPSG:4326 by the closed formulas of the spherical Mercator projection (not by MapProxy / pyproj)"""
+    return x / R_EARTH * 180.0 / math.pi, (2 * math.atan(math.exp(y / R_EARTH)) - math.pi / 2) * 180.0 / math.pi
+
+
+def deg_to_merc(lon, lat):
+    return lon * math.pi / 180.0 * R_EARTH, math.log(math.tan(math.pi / 4 + lat * math.pi / 360.0)) * R_EARTH
+
+
+REPROJ = [
+    # name, grid srs, scale (grid units per lattice unit), request srs, request variants
+    # one-metre pixels next to the origin, requests in degrees: neighbouring requests agree to many decimals
+    ('Gbig/3857<-4326/fine', 'EPSG:3857', 0.05, 'EPSG:4326', [('1.1.1', False), ('1.3.0', True)]),
+    # a grid of 6400 km (to 50 degrees north), requests in degrees: a degree pixel is not a square on the grid
+    ('Gbig/3857<-4326/wide', 'EPSG:3857', 5000, 'EPSG:4326', [('1.1.1', False), ('1.3.0', True)]),
+    # a grid in degrees (to 64 degrees north), requests in metres
+    ('Gbig/4326<-3857/wide', 'EPSG:4326', 0.05, 'EPSG:3857', [('1.1.1', False), ('1.3.0', False)]),
+]
+
+
+def reproj_requests(g, rng, n):
+    """request centres and resolutions in lattice terms: single requests and walks (the same size, moved by a few pixels)"""
+    out = []
+    while len(out) < n:
+        lres = rng.choice([20, 25, 40, 30, 60, 80, 15, 20, 40])
+        w, h = rng.randint(2, 10), rng.randint(2, 10)
+        k = rng.random()
+        lo, hi = (100, 1180) if k < 0.8 else (-60, 1340)           # mostly inside the grid, some across its edges
+        cx, cy = rng.uniform(lo, hi), rng.uniform(lo, hi)
+        out.append((cx, cy, lres, w, h))
+        if rng.random() < 0.5:
+            for _ in range(rng.randint(1, 4)):                      # a client panning by whole pixels
+                cx = min(max(cx + rng.choice([-5, -4, -3, 3, 4, 5, 0]) * lres, -60), 1340)
+                cy = min(max(cy + rng.choice([-5, -4, -3, 3, 4, 5, 0]) * lres, -60), 1340)
+                out.append((cx, cy, lres, w, h))
+    return out[:n]
+
+
+def observe_reprojected(app, g, gsrs, rsrs, scale, variants, reqs, rng, problems):
+    to_grid = merc_to_deg if rsrs == 'EPSG:3857' else deg_to_merc
+    from_grid = deg_to_merc if rsrs == 'EPSG:3857' else merc_to_deg
+    maps = []
+    for cx, cy, lres, w, h in reqs:
+        X, Y = from_grid(cx * scale, cy * scale)
+        X2, _Y2 = from_grid((cx + lres) * scale, cy * scale)
+        rx = ry = X2 - X                                               # square pixels in the SRS of the request
+        bbox = (X - w / 2.0 * rx, Y - h / 2.0 * ry, X + w / 2.0 * rx, Y + h / 2.0 * ry)
+        version, latlon = rng.choice(variants)
+        b = (bbox[1], bbox[0], bbox[3], bbox[2]) if latlon else bbox
+        url = ('/service?SERVICE=WMS&VERSION=%s&REQUEST=GetMap&LAYERS=lay&STYLES=&%s=%s&BBOX=%r,%r,%r,%r&WIDTH=%d&HEIGHT=%d'
+               '&FORMAT=image/png&TRANSPARENT=TRUE' % ((version, 'CRS' if version == '1.3.0' else 'SRS', rsrs) + tuple(b) + (w, h)))
+        r = app.get(url)
+        if r.status_int == 500 and 'Invalid BBOX' in r.text:
+            # as in observe_maps: a request that overlaps the grid by less than 2/10 pixel of some level is refused
+            # instead of answered blank - no picture, nothing for C01 to say
+            lo, hi = to_grid(bbox[0], bbox[1]), to_grid(bbox[2], bbox[3])
+            if sliver(g, [lo[0] / scale, lo[1] / scale, hi[0] / scale, hi[1] / scale]):
+                continue
+        if r.status_int != 200 or not r.content_type.startswith('image/'):
+            problems.append(('map-request-failed', 'GetMap %s answered %s: %s' % (url, r.status, r.text[:200])))
+            continue
+        img = app.image(r)
+        if img.size != (w, h):
+            problems.append(('size', 'GetMap %s returned an image of %s' % (url, img.size)))
+            continue
+        _lv, cells, _bg = L.decode_cells(g, img)
+        pix = img.convert('RGBA').load()
+        px, at = [], []
+        for j in range(h):
+            for i in range(w):
+                px_, py_ = bbox[0] + (i + 0.5) * rx, bbox[3] - (j + 0.5) * ry
+                gx, gy = to_grid(px_, py_)
+                gx1, gy1 = to_grid(px_ + rx / 2.0, py_ + ry / 2.0)
+                gx0, gy0 = to_grid(px_ - rx / 2.0, py_ - ry / 2.0)
+                at.append([int(round(gx / scale * 1000)), int(round(gy / scale * 1000)),
+                           int(round((gx1 - gx0) / scale * 1000)), int(round((gy1 - gy0) / scale * 1000))])
+                if (i, j) in cells:
+                    px.append([pix[i, j][2] - 100, cells[(i, j)][0], cells[(i, j)][1]])
+                else:
+                    px.append([-1, 0, 0])
+        maps.append({'w': w, 'h': h, 'px': px, 'at': at, 'url': url})
+    return maps
+
+
+def reprojected_phase(ctx):
+    thorough = ctx.tier == 'thorough'
+    n = 400 if thorough else 120
+    g = L.spec_grid('Gbig')
+    for name, gsrs, scale, rsrs, variants in REPROJ:
+        problems = []
+        app = L.LatticeApp(g, srs=gsrs, scale=scale, wms_srs=[gsrs, rsrs], meta_size=(1, 1))
+        try:
+            maps = observe_reprojected(app, g, gsrs, rsrs, scale, variants, reproj_requests(g, ctx.rng, n), ctx.rng, problems)
+        finally:
+            app.close()
+        d = ctx.sub('tr-' + name.replace('/', '_').replace('<-', '_from_'))
+        tf = os.path.join(d, 'cases.json')
+        with open(tf, 'w') as f:
+            json.dump({'grid': g, 'ext': list(g['bbox']), 'maps': maps}, f)
+        mp, cp = tlc.write_mc(d, 'Trace_GeoReproj', 'MC_TGR', {}, spec='TraceSpec')
+        r = tlc.run(mp, cp, d, workers=1, coverage=False, env={'TRACE_FILE': tf}, timeout=3000, heap='6g')
+        pr = tlc.find_prints(r.out, 'verdict')
+        if not pr:
+            raise tlc.MachineryError('Trace_GeoReproj gave no verdict for %s: %s' % (name, r.out[-1500:]))
+        v = pr[-1][1]
+        if v['shown'] * 2 < len(maps) or len(maps) * 2 < n:
+            raise tlc.MachineryError('vacuity: %s - only %d of %d reprojected requests answered with a picture' % (name, v['shown'], n))
+        ctx.cov['transitions'] += len(maps)
+        ctx.cov['traces_validated_against_impl'] += 1
+        for m in maps:
+            ctx.count((name, 'reprojected', m['url']))
+        seen = set()
+        for kind, text in problems:
+            if kind not in seen:
+                seen.add(kind)
+                ctx.violation({'kind': kind, 'config': name}, '%s: %s' % (name, text), None)
+        if v['map']:
+            c = maps[v['map'] - 1]
+            bad = sorted(v['badpx'])[:6]
+            ctx.violation({'kind': 'map-provenance-reprojected', 'config': name},
+                          '%s: %d of %d reprojected map requests (answered one after the other by one process) violate C01; e.g. '
+                          'request #%d %s: offending pixels (index, shown [level, cell x, cell y], expected place and pixel extent on '
+                          'the grid in 1/1000 units) %s' % (name, v['nmap'], len(maps), v['map'], c['url'],
+                                                            [(k - 1, c['px'][k - 1], c['at'][k - 1]) for k in bad]),
+                          {'grid': g, 'case': {'url': c['url'], 'config': name}})
+        ctx.log('%s: %d reprojected map requests (%d bad)' % (name, len(maps), v['nmap']))
+
+
 CONFIGS = [
     # name, grid, kwargs for LatticeApp, request variants (version, srs, lat/long order)
     ('G2/3857', 'G2', dict(), [('1.1.1', 'EPSG:3857', False), ('1.3.0', 'EPSG:3857', False), ('1.1.1', 'EPSG:900913', False)]),
@@ -310,10 +451,12 @@ def run(ctx):
                           'upstream %s pixel (%d,%d)%s' % (name, v['ninfo'], len(infos), c['q'], c['ci'], c['cj'], c['u'], c['ui'], c['uj'],
                                                           ' for WMTS address %s' % c['addr'] if 'addr' in c else ''), {'grid': g, 'case': c})
         ctx.log('%s: %d map requests (%d bad), %d feature-info requests (%d bad)' % (name, len(maps), v['nmap'], len(infos), v['ninfo']))
+    reprojected_phase(ctx)
     ctx.assumptions += [
-        'requests in the SRS of the grid or an alias / axis-swapped form of it (EPSG:3857, EPSG:900913, EPSG:4326 in '
-        'both axis orders); requests that need a mesh reprojection between different projections are outside what the '
-        'specification decides (numeric accuracy of pyproj + PIL)',
+        'level choice, blank conditions, one-tile identity and the upstream requests are decided for requests in the SRS of the '
+        'grid or an alias / axis-swapped form of it (EPSG:3857, EPSG:900913, EPSG:4326 in both axis orders); for requests '
+        'that need a mesh reprojection (EPSG:4326 <-> EPSG:3857) the position clause alone, with the expected place of every '
+        'pixel computed by the harness from the closed formulas of the spherical Mercator projection',
         'nearest-neighbour resampling configured so that decoded cells stay exact; cascaded (uncached) WMS layers and tile '
         'URL-template sources are not covered, cached WMS sources are',
     ]
